@@ -21,7 +21,7 @@ import (
 //   exp new <dom> | exp seq <n> | exp send <path> <t|d|u> <setid> <tid@elems;...> | exp tids | exp getseq
 //   exp new <dom> json          the process is created in JSON mode (ExporterInput.SendJSONRecord): a send answers
 //                               `okj <writes>` / `err -` (error, nothing written) / `errj <writes>`; the JSON text stays out
-//   exp failnext <err|refused|short<k>>   the NEXT Write on the connection returns (0, error) / (0, ECONNREFUSED as a
+//   exp failnext <err|errfull|refused|short<k>>   the NEXT Write on the connection returns (0, error) / (0, ECONNREFUSED as a
 //                               connected UDP socket reports it) / (k, nil) having taken only k bytes; the send (or refresh)
 //                               during which that happened answers with a trailing ` injected`
 func init() {
@@ -266,6 +266,9 @@ func (c *memConn) Write(b []byte) (int, error) {
 		switch kind {
 		case "err":
 			return 0, fmt.Errorf("injected write error")
+		case "errfull":
+			// what pion/dtls' Conn.Write returns when the datagram could not be written: the full length AND an error
+			return len(b), fmt.Errorf("injected write error (count = len)")
 		case "refused":
 			// what a connected UDP socket returns for a Write after an ICMP port unreachable came back
 			return 0, &net.OpError{Op: "write", Net: "udp", Source: c.LocalAddr(), Addr: c.RemoteAddr(),
@@ -388,7 +391,7 @@ func engExp(a []string) string {
 			return "bad-op"
 		}
 		switch {
-		case a[1] == "err" || a[1] == "refused":
+		case a[1] == "err" || a[1] == "refused" || a[1] == "errfull":
 			expConn.failNext(a[1], 0)
 		case strings.HasPrefix(a[1], "short"):
 			k, err := strconv.Atoi(a[1][5:])
